@@ -166,6 +166,21 @@ Base(F, cwd, dk) ==
                        IN IF d.k = "ok" /\ NodeT(F, d.p) = "dir" THEN d ELSE ErrR("EBADF")
     [] OTHER -> ErrR("EBADF")
 
+(* procfs aliases.  A name can also reach its base directory through a magic link written in *)
+(* the string itself (ps.pre); such a string is absolute, so the descriptor is ignored:      *)
+(*   "pcwd"  /proc/self/cwd/<comps>        "ptcwd" /proc/thread-self/cwd/<comps>             *)
+(*   "proot" /proc/self/root<cwd>/<comps>  "pfd"   /proc/self/fd/<N>/<comps>, N open on pdir  *)
+(* The kernel continues the walk in the directory the link refers to.                        *)
+BaseOf(F, cwd, dk, ps) ==
+  CASE ps.pre = ""                 -> Base(F, cwd, dk)
+    [] ps.pre \in {"pcwd", "ptcwd", "proot"} -> OkR(cwd)
+    [] ps.pre = "pfd"              -> LET d == Base(F, cwd, [lo |-> "fd", hi |-> "zero", dirp |-> ps.pdir])
+                                      IN IF d.k = "ok" THEN d ELSE ErrR("ENOENT")   \* no such entry in fd/
+
+\* the walk proper sees a relative name below that base
+Rel(ps) == [abs |-> ps.abs /\ ps.pre = "", comps |-> ps.comps, trail |-> ps.trail]
+WellFormedP(ps) == WellFormed(ps) /\ (ps.pre # "" => ~ps.abs /\ ps.comps # <<>>)
+
 -----------------------------------------------------------------------------
 (* System calls: register layout (kernel ABI), which path arguments they   *)
 (* have, whether the final symlink is followed, and the access class.      *)
